@@ -980,9 +980,9 @@ class bcrypt_sha256(_wrapped_bcrypt):
     _v2_hash_re = re.compile(r"""(?x)
         ^
         [$]bcrypt-sha256[$]
-        v=(?P<version>\d+),
+        v=(?P<version>[0-9]+),
         t=(?P<type>2b),
-        r=(?P<rounds>\d{1,2})
+        r=(?P<rounds>[0-9]{1,2})
         [$](?P<salt>[^$]{22})
         (?:[$](?P<digest>[^$]{31}))?
         $
@@ -993,7 +993,7 @@ class bcrypt_sha256(_wrapped_bcrypt):
         ^
         [$]bcrypt-sha256[$]
         (?P<type>2[ab]),
-        (?P<rounds>\d{1,2})
+        (?P<rounds>[0-9]{1,2})
         [$](?P<salt>[^$]{22})
         (?:[$](?P<digest>[^$]{31}))?
         $
